@@ -6,6 +6,7 @@ import abc
 import math
 import typing
 import warnings
+from .. import _expression
 from .._bit_length_set import BitLengthSet
 from ._serializable import SerializableType, TypeParameterError, AggregationFailure
 from ._primitive import UnsignedIntegerType, PrimitiveType
@@ -103,7 +104,7 @@ class FixedLengthArrayType(ArrayType):
 
     def __str__(self) -> str:
         try:
-            return "%s[%d]" % (self.element_type, self.capacity)
+            return "%s[%s]" % (self.element_type, _expression.Rational(self.capacity))
         except AttributeError:  # pragma: no cover
             return "FixedLengthArrayType(UNINITIALIZED)"
 
@@ -189,7 +190,7 @@ class VariableLengthArrayType(ArrayType):
 
     def __str__(self) -> str:
         try:
-            return "%s[<=%d]" % (self.element_type, self.capacity)
+            return "%s[<=%s]" % (self.element_type, _expression.Rational(self.capacity))
         except AttributeError:  # pragma: no cover
             return "VariableLengthArrayType(UNINITIALIZED)"
 
